@@ -11,6 +11,25 @@ Wants1 == [f \in {"f1"} |-> <<"a">>]
 \* a requester asking for a range above 65535 whose legacy CID collides with a's
 WantsWide == [f \in {"f1", "f2"} |-> IF f = "f1" THEN <<"w">> ELSE <<"a">>]
 
+\* three Fetch calls of one identifier (the third one enters while the first still waits)
+Wants3 == [f \in {"f1", "f2", "f3"} |-> <<"a">>]
+
+(* ---- scenario witnesses: histories the replay must contain (found as "counterexamples" of ~goal) ---- *)
+\* "the duplicate leaves first, the block arrives later": f1 is the original requester of a, f2 a
+\* duplicate that is cancelled before any block has arrived; f1 must still be served.
+ScenDupLeavesFirst ==
+    /\ fs["f2"].orig = {} /\ fs["f1"].pc # "cancelled"
+    /\ (nmsg > 0 => fs["f2"].pc = "cancelled" /\ fs["f1"].pc \in {"waiting", "done"})
+GoalDupLeavesFirst == ~(fs["f1"].pc = "done")
+
+\* "a third Fetch in the gap": as above, and f3 asks for a after f2 has left and before the block
+\* arrives; both f1 and f3 must end filled.
+ScenThirdInGap ==
+    /\ fs["f2"].orig = {} /\ fs["f1"].pc # "cancelled" /\ fs["f3"].pc # "cancelled"
+    /\ (fs["f3"].pc # "idle" => fs["f2"].pc = "cancelled" /\ fs["f1"].pc \in {"waiting", "done"})
+    /\ (nmsg > 0 => fs["f3"].pc \in {"waiting", "done"})
+GoalThirdInGap == ~(fs["f1"].pc = "done" /\ fs["f3"].pc = "done")
+
 NoWide == [i \in {} |-> "a"]
 WideOnA == [i \in {"w"} |-> "a"]
 
